@@ -61,7 +61,7 @@ PROPS["C17"] = {
     "rule": ("each run draws carrier x security x closer (application or target) x payload written before the close (0 bytes .. tier cap, boundary sizes) x write partition x "
              "whether the other side writes too x 0-2 background connections x socket-buffer bound x delivery chunking; the close is an ordinary driver event, so it races the "
              "last write's frames, the FIN and the opposite direction freely; non-trivial = the close took effect and the other end's outcome was judged; distinct = schedule shapes"),
-    "probes": ["closes_observed", "clean_eof", "runs_with_think_time", "runs_with_closing_neighbour", "runs_with_a_crowd_of_neighbours", "fault_segmentation", "runs_over_the_forward_address", "runs_with_a_heavy_paused_neighbour"],
+    "probes": ["closes_observed", "clean_eof", "runs_with_think_time", "runs_with_closing_neighbour", "runs_with_a_crowd_of_neighbours", "fault_segmentation", "runs_over_the_forward_address", "runs_with_a_heavy_paused_neighbour", "runs_with_a_refused_neighbour"],
     "technique": "deterministic simulation: seeded search over close/last-write/FIN orderings per carrier, all-bytes-then-EOF oracle with bounded termination",
     "level_text": ("Seeded exploration: the non-closing end must read exactly the PRF stream the closer wrote and then end-of-stream, within 10 simulated minutes (30 over DNS) and never "
                    "sit 90 s with nothing deliverable; a shorter stream, an error instead of end-of-stream, or no termination are distinct rules."),
